@@ -24,6 +24,8 @@
 //	                                                       a state transformer)
 //	            for { … } / for c { … } with return, break, continue in the body (body ↦ Ctl, see below)
 //	            (loops: not nested, fuel expression from the whitelist table)
+//	            for i := c; i < N; i++ { … }  with constants c, N, no `continue` and no write to i in the body
+//	                                          (round 4, round4.go: rewritten to `i := c; for i < N { …; i++ }`, fuel computed)
 //	            return e1, …, en; falling off the end of a function without results
 //	            the statement sequences of the effect table below
 //	expressions integer literals and constants (named package constants are emitted as Lean defs with
@@ -148,6 +150,9 @@ var whitelist = []spec{
 	{pkg: "datafile", fn: "DecodeChunk"},
 	{pkg: "datafile", fn: "DecodeLogRecord"},
 	{pkg: "datafile", fn: "DecodeLogRecordValue"},
+	// round 4: the checks the readers run before the decoders (TransEq5.lean)
+	{pkg: "datafile", fn: "validLogRecord"},
+	{pkg: "datafile", fn: "validHintRecord"}, // counted loop: fuel computed (round4.go)
 	{pkg: "datafile", fn: "EncodeLogRecord"},
 	{pkg: "datafile", fn: "EncodeHintRecord"},
 	{pkg: "datafile", fn: "DecodeHintRecord"},
@@ -914,6 +919,7 @@ type tr struct {
 	written map[types.Object]bool // []byte variables that are written (index assignment, copy, write primitives, read effect)
 	pending []pendingWrite        // writes of the write primitives met in the current simple statement
 
+	r4fuel string // round 4 (round4.go): fuel of the counted loop that is translated next
 	r3 round3 // round 3 (round3.go): written receiver fields, nested range loops, calls of functions with loops
 }
 
@@ -2525,6 +2531,15 @@ func (t *tr) terminal(list []ast.Stmt, o *out, ind string, top bool) {
 			if t.inLoop {
 				failAt(s, "a loop nested in a loop body is outside the subset")
 			}
+			if v.Init != nil || v.Post != nil {
+				// (round 4, round4.go) counted loop: `i := c`, then `for i < N { …; i++ }` with fuel N - c + 1
+				init, lp, fuel := t.countedLoop(v)
+				if !t.simple(init, o, ind, []ast.Stmt{lp}) {
+					failAt(init, "init statement of a counted loop is outside the subset")
+				}
+				t.r4fuel = fuel
+				v = lp
+			}
 			t.loop(v, o, ind)
 			ind += "  "
 		case *ast.RangeStmt:
@@ -2579,8 +2594,16 @@ func (t *tr) loop(v *ast.ForStmt, o *out, ind string) {
 	}
 	idx := t.nloop
 	t.nloop++
-	if idx >= len(t.sp.fuel) {
+	fuelOf := func(int) string { return "" }
+	if t.r4fuel != "" {
+		// (round 4) counted loop: the fuel is computed from its constant bounds; the table entry of this loop, if any, is ignored
+		f := t.r4fuel
+		t.r4fuel = ""
+		fuelOf = func(int) string { return f }
+	} else if idx >= len(t.sp.fuel) {
 		failAt(v, "no fuel expression in the table for loop %d of %s", idx, t.fd.Name.Name)
+	} else {
+		fuelOf = func(i int) string { return t.sp.fuel[i] }
 	}
 	stName := t.leanName + ".St"
 	bodyName := fmt.Sprintf("%s.body%d", t.leanName, idx)
@@ -2610,7 +2633,7 @@ func (t *tr) loop(v *ast.ForStmt, o *out, ind string) {
 			"    if " + c.s + " then " + loopName + " @ARGS@fuel (" + bodyName + " @ARGS@st)",
 			"    else some st",
 		}, "\n"))
-		o.add(ind, "match "+loopName+" @ARGS"+fmt.Sprint(idx)+"@("+t.sp.fuel[idx]+") st with")
+		o.add(ind, "match "+loopName+" @ARGS"+fmt.Sprint(idx)+"@("+fuelOf(idx)+") st with")
 		o.add(ind, "| none => none")
 		o.add(ind, "| some st =>")
 		return
@@ -2644,7 +2667,7 @@ func (t *tr) loop(v *ast.ForStmt, o *out, ind string) {
 	}
 	t.r3.loopIdx = append(t.r3.loopIdx, idx)
 	t.loops = append(t.loops, strings.Join(lines, "\n"))
-	o.add(ind, "Ctl.after ("+loopName+" @ARGS"+fmt.Sprint(idx)+"@("+t.sp.fuel[idx]+") st) fun st =>")
+	o.add(ind, "Ctl.after ("+loopName+" @ARGS"+fmt.Sprint(idx)+"@("+fuelOf(idx)+") st) fun st =>")
 }
 
 var wordRe = regexp.MustCompile(`[A-Za-z_][A-Za-z0-9_.']*`)
